@@ -31,3 +31,34 @@ def install(ex, rank_chop=True, svd=False):
         ex.call_hooks['torchtt._decomposition.rank_chop'] = gauge.rank_chop_contract
     if svd:
         ex.call_hooks['torchtt._decomposition.SVD'] = svd_contract
+
+
+def iterative_solver_contract(kind):
+    """ASSUMED shape contract of _iterative_solvers.gmres_restart / BiCGSTAB_reset (their loops run over a data-dependent
+    iteration count with in-place Hessenberg updates): the operator is applied to a vector of the shape of x0 at least once and
+    must return that shape; the returned solution has the shape and dtype of x0, plus a flag and an iteration count."""
+    from ttvc import tensors as T
+    from ttvc.terms import fresh_int, fresh_bool
+
+    def hook(ex, f, args, kwargs):
+        Op, rhs, x0 = args[0], args[1], args[2]
+        y = ex.call(ex.getattr(Op, 'matvec'), [x0])
+        if not isinstance(y, T.STensor) or len(y.shape) != len(x0.shape) or not all(T.known_eq(a, b) for a, b in zip(y.shape, x0.shape)):
+            raise T.PyRaise('RuntimeError', 'local operator does not map the iterate space to itself: %s -> %s' % (x0.shape, getattr(y, 'shape', None)), origin='torch')
+        if not all(T.known_eq(a, b) for a, b in zip(rhs.shape, x0.shape)):
+            raise T.PyRaise('RuntimeError', 'right-hand side and iterate have different shapes', origin='torch')
+        sol = T.opaque_with_axes(list(x0.axes), x0.dtype, 'itsol')
+        sol._val = None
+        it = fresh_int('nit')
+        ex.assume(it >= 0)
+        flag = fresh_bool('conv')
+        ex.events.append(('iterative_solver', kind))
+        if kind == 'gmres':
+            return (sol, flag, it)
+        return (sol, flag, it, T.opaque_tensor([], x0.dtype, 'relres'))
+    return hook
+
+
+def install_solvers(ex):
+    ex.call_hooks['torchtt._iterative_solvers.gmres_restart'] = iterative_solver_contract('gmres')
+    ex.call_hooks['torchtt._iterative_solvers.BiCGSTAB_reset'] = iterative_solver_contract('bicgstab')
